@@ -186,7 +186,14 @@ def r2(ctx, R):
     for f in scope:
         cfg = None
         for c in calls_in(f.node):
-            if ctx.m.enclosing_func(c) is not f or not (isinstance(c.func, ast.Attribute) and c.func.attr == "add_doc" and c.args and "docs" in unparse(c.args[0])):
+            if ctx.m.enclosing_func(c) is not f or not (isinstance(c.func, ast.Attribute) and c.func.attr == "add_doc" and c.args):
+                continue
+            a0 = c.args[0]
+            from_buffer = "docs" in unparse(a0)
+            if not from_buffer and isinstance(a0, ast.Name):
+                # the formatted text bound to a local first: doc_str = format(docs)
+                from_buffer = any(v is not None and "docs" in unparse(v) for _, v in defs_of(ctx, f, a0.id))
+            if not from_buffer:
                 continue
             n += 1
             cfg = cfg or ctx.cfg(f)
